@@ -4,6 +4,7 @@ package worlds
 
 import (
 	"bytes"
+	"crypto/rand"
 	"fmt"
 	"testing"
 	"time"
@@ -93,7 +94,13 @@ func c10World(t *testing.T, r *simcore.Run) any {
 		mode = "sampled"
 		for k := 0; k < c10PerRun; k++ {
 			c := mcase{onResp: tp.Bool(1, 2, "onresp")}
-			switch tp.Pick([]uint64{6, 4, 1, 1, 1, 2, 2, 3, 1, 2, 2}, "kind") {
+			switch tp.Pick([]uint64{6, 4, 1, 1, 1, 2, 2, 3, 1, 2, 2, 2}, "kind") {
+			case 11:
+				// fields slipped in right in front of the authenticator, whose own (unauthenticated)
+				// length word is raised by as much: what the authenticator covers is what precedes
+				// it on the wire, not what its length word leaves over
+				c.kind = "inserted-before-authenticator"
+				c.val = 1 + tp.Intn(7, "ninserted")
 			case 10:
 				c.kind, c.onResp = "header-changed-genuine-behind", false
 				c.bit = tp.Intn(48*8, "hbit")
@@ -269,6 +276,13 @@ func c10World(t *testing.T, r *simcore.Run) any {
 				case "genuine":
 					mut = append([]byte(nil), g.Payload...)
 					desc = "request replayed unmodified"
+				case "inserted-before-authenticator":
+					mut = c10InsertBeforeAuth(g.Payload, c.val, 0x0304)
+					if mut == nil {
+						continue
+					}
+					desc = fmt.Sprintf("request with %d placeholder field(s) inserted before the authenticator, its length word raised accordingly", c.val)
+					r.Probe("fields-inserted-before-authenticator")
 				case "header-changed-genuine-behind":
 					// the request with a changed NTP header, and the genuine request right behind it
 					// (over SCION: behind the end of the UDP datagram): what is answered must be
@@ -389,6 +403,14 @@ func c10World(t *testing.T, r *simcore.Run) any {
 					}
 					skip = true
 					return nil, "", false
+				case "inserted-before-authenticator":
+					mut := c10InsertBeforeAuth(g, 1, 0x0104)
+					if mut == nil {
+						skip = true
+						return nil, "", false
+					}
+					r.Probe("fields-inserted-before-authenticator")
+					return mut, "the genuine response with a second unique-identifier field inserted before the authenticator, its length word raised accordingly", true
 				case "stripped":
 					desc = "the genuine response without its NTS fields (bare 48-byte NTP header)"
 					return append([]byte(nil), g[:48]...), desc, true
@@ -536,4 +558,31 @@ func init() {
 		World:      c10World,
 		NonTrivial: func(r *simcore.Run) bool { return r.Counts["cases"] >= 2 },
 	}
+}
+
+// c10InsertBeforeAuth returns p with n extension fields of the given type (36 bytes each)
+// inserted in front of the authenticator field and the authenticator's length word raised
+// by the inserted size; nil if p has no authenticator.
+func c10InsertBeforeAuth(p []byte, n int, typ uint16) []byte {
+	for _, f := range ntsWalk(p) {
+		if f.typ != 0x0404 {
+			continue
+		}
+		var ins []byte
+		for i := 0; i < n; i++ {
+			fld := make([]byte, 36)
+			rand.Read(fld[4:])
+			fld[0], fld[1], fld[2], fld[3] = byte(typ>>8), byte(typ), 0, 36
+			ins = append(ins, fld...)
+		}
+		out := append([]byte(nil), p[:f.off]...)
+		out = append(out, ins...)
+		out = append(out, p[f.off:]...)
+		at := f.off + len(ins)
+		l := int(out[at+2])<<8 | int(out[at+3])
+		l += len(ins)
+		out[at+2], out[at+3] = byte(l>>8), byte(l)
+		return out
+	}
+	return nil
 }
